@@ -1218,6 +1218,9 @@ func (a *fnAnalysis) block(b *ssa.BasicBlock, st *rstate) {
 			for _, r := range x.Results {
 				if isIntType(r.Type()) && len(x.Results) == 1 {
 					a.res.ret = joinVal(a.res.ret, a.get(st, r))
+				} else if _, isSlice := r.Type().Underlying().(*types.Slice); isSlice && len(x.Results) == 1 {
+					// a function returning one slice is summarised by the length of what it returns
+					a.res.ret = joinVal(a.res.ret, a.lenOf(st, r))
 				} else if isFloatType(r.Type()) && len(x.Results) == 1 {
 					a.res.retF = joinF(a.res.retF, a.getF(st, r))
 				}
@@ -1507,6 +1510,8 @@ func (a *fnAnalysis) call(st *rstate, x *ssa.Call) {
 	for _, arg := range common.Args {
 		if isIntType(arg.Type()) {
 			a.observe(x, arg, a.get(st, arg))
+		} else if _, isSlice := arg.Type().Underlying().(*types.Slice); isSlice {
+			a.observe(x, arg, a.lenOf(st, arg)) // the length of a slice argument
 		}
 	}
 	if b, ok := common.Value.(*ssa.Builtin); ok {
@@ -1657,6 +1662,10 @@ func (a *fnAnalysis) call(st *rstate, x *ssa.Call) {
 				}
 			}
 			st.iv[x] = v
+		} else if _, isSlice := x.Type().Underlying().(*types.Slice); isSlice {
+			if v := a.e.retSum[callee].orBot(); !v.bot {
+				st.iv[x] = v.clamp(0, pinf) // the length of the returned slice
+			}
 		} else if isFloatType(x.Type()) {
 			v, ok := a.e.retFOverride[fname(callee)]
 			if !ok {
